@@ -1432,3 +1432,72 @@ _c12_close_race_only = c12_close_race
 
 def c12_close_race(ctx, verdict):
     return _c12_close_race_only(ctx, verdict) + bounded(ctx, verdict)
+
+# ---- C13 on the send path: numbering of what actually reaches the wire (same driver as c10s) ----
+def c13s_oracle(line, meta, io):
+    """property C13: the frames a side puts on the wire for a stream carry 0,1,2,.. in emission order - a
+    sequence number must not be consumed by a frame that never reaches the wire (the reader of an ordered
+    stream would wait for it for ever)"""
+    if io.startswith('PANIC'):
+        return None
+    ops = line.split()[5:]
+    obs = io.split()
+    if len(obs) != len(ops):
+        return None
+    due = {}
+    for opi, (op, ob) in enumerate(zip(ops, obs)):
+        if ob == 'nostream':
+            continue
+        for r in ob.split(';')[1:]:
+            try:
+                wlen, hdr, d = r.split(':', 2)
+                fsid, fseq, fcl, pl = d.split('.', 3)
+            except ValueError:
+                continue
+            if fsid == '4294967295':
+                continue
+            want = due.get(fsid, 0)
+            if int(fseq) != want:
+                return 'stream %s: operation %d (%s) put the frame numbered %s on the wire where %d was due (operations so far: %s): a sequence number was consumed without a frame' % (
+                    fsid, opi, op, fseq, want, ' '.join(ops[:opi + 1]))
+            due[fsid] = want + 1
+    return None
+
+
+def c13_send_numbering(ctx, verdict):
+    broken = []
+    cases = c10s_gen(ctx, False)
+    rc, log, impl, dt = c10s_run(ctx, [c[1] for c in cases], 'c13send')
+    if rc != 0 or not impl:
+        broken.append(('Go driver TestVerifC10Send (send path of a stream) failed to build or run', log[-3000:]))
+        return broken
+    fails = []
+    for cid, line, meta in cases:
+        io = impl.get(cid)
+        if io is None:
+            continue
+        msg = c13s_oracle(line, meta, io)
+        if msg:
+            fails.append((len(line), cid, line, meta, io, msg))
+    for _, cid, line, meta, io, msg in sorted(fails)[:1]:
+        verdict.oracle_failure('send-gap', 'C13 oracle (send path of a stream): ' + msg,
+                               dict(kind='window', driver='c13s', case=line, meta=meta, implementation=io,
+                                    schedule=['real Session (method %d, %s, MsgOnWireSizeLimit %d) over a TLSConn over a recording connection; operations in order: %s' % (
+                                        meta['method'], 'unordered' if meta['unordered'] else 'ordered', meta['limit'], ' '.join(line.split()[5:])),
+                                        'per operation: <n>:<err>;<bytes written>:<record header ok>:<stream>.<seq>.<closing>.<payload> ...', io],
+                                    how='python3 tools/check.py C13 --replay <this file>'))
+    verdict.cov['send_path_numbering'] = dict(cases=len(cases), ran=len(impl), oracle_failures=len(fails), go_seconds=round(dt, 1),
+                                              rule='the send-path cases of C10 (Write/ReadFrom incl. empty reads/obfuscateAndSend error branches/Close): per stream the frames on the wire are numbered 0,1,2,.. in emission order')
+    return broken
+
+
+def c13s_replay(ctx, r):
+    rc, log, impl, dt = c10s_run(ctx, [r['case']], 'replay')
+    io = impl.get(r['case'].split()[0]) or ''
+    print('case:          ', r['case']); print('implementation:', io)
+    msg = c13s_oracle(r['case'], r['meta'], io) if io else 'driver failed ' + log[-400:]
+    print('oracle:', msg)
+    return 1 if msg else 0
+
+
+REPLAY['c13s'] = c13s_replay
